@@ -278,7 +278,7 @@ def shard(i, n, nfuzz, ngen):
             part.count('shape-cells')
     for tag, files in inputs.adversarial():
         k += 1
-        if tag.startswith(('diamond-chain-16', 'diamond-chain-2', 'long-')):
+        if tag.startswith(('diamond-chain-16', 'diamond-chain-2', 'long-', 'nested-interpolation-1', 'nested-interpolation-2', 'nested-interpolation-print-1', 'nested-interpolation-print-2')):
             continue        # cost shapes (C03's business); without a step budget they only burn the watchdog
         if k % n == i:
             judge(w, files, part, 'adversarial:' + tag)
